@@ -1,0 +1,34 @@
+//go:build verif
+
+package keeper
+
+// Machine-checked contracts for the govc verifier (/verif). Comment-only; compiled only with -tags verif.
+
+// okTwa: representation invariant of a stored TimeWeightedAverage for a fixed window size n.
+//@ pred okTwa(t, n): len(t.PriceValue) <= n && \
+//@      (len(t.PriceValue) < n ==> t.CurrentIndex == len(t.PriceValue) && !t.IsPriceActive) && \
+//@      (len(t.PriceValue) == n ==> t.CurrentIndex < n) && \
+//@      (t.IsPriceActive ==> len(t.PriceValue) == n) && \
+//@      (t.DiscardedHeightDiff == -1 || t.DiscardedHeightDiff >= 1) && \
+//@      (t.DiscardedHeightDiff >= 1 ==> !t.IsPriceActive)
+
+//@ func (k Keeper) CalculateTwa
+//@   property C17
+//@   modular
+//@   modifies nothing
+//@   requires twaBatch >= 1 && twaBatch <= len(twa.PriceValue)
+//@   nopanic
+//@   loop 0 invariant #range: 0 <= i && i <= twaBatch
+//@   loop 0 invariant #sum: sum == mod(sum(twa.PriceValue, 0, i), pow2(64))
+//@   ensures #c17-mean-mod: result == mod(sum(twa.PriceValue, 0, twaBatch), pow2(64)) / twaBatch
+
+//@ func (k Keeper) UpdatePriceList
+//@   property C17
+//@   let t0 = k.GetTwa(ctx, id).0
+//@   let f0 = k.GetTwa(ctx, id).1
+//@   requires twaBatch >= 1 && twaBatch < pow2(31) && height() >= 1
+//@   requires f0 ==> okTwa(t0, twaBatch) && t0.AssetID == id
+//@   nopanic
+//@   ensures #c17-inv: k.GetTwa(ctx, id).1 ==> okTwa(k.GetTwa(ctx, id).0, twaBatch) && k.GetTwa(ctx, id).0.AssetID == id
+//@   ensures #c17-zero-deactivates: rate == 0 && f0 ==> !k.GetTwa(ctx, id).0.IsPriceActive
+//@   ensures #c17-created-only-by-positive: !f0 && rate == 0 ==> !k.GetTwa(ctx, id).1
